@@ -134,6 +134,58 @@ func (g *genCtx) leaf() Node {
 	return Node{K: "val"}
 }
 
+// exitChain builds a block (or a tagbody) whose last form is a chain of 1-4
+// nested forms, each holding the next one as its LAST form, with a
+// return-from (go) to the outermost at the bottom: an exit that leaves through
+// every form of the chain from tail position - the shape a random tree rarely
+// produces, and the only one in which forms that do not forward non-final
+// exits (known findings) can be exercised.
+func (g *genCtx) exitChain() Node {
+	g.nextID++
+	top := g.nextID
+	useGo := g.r.Pct(30)
+	var bottom Node
+	var name string
+	if useGo {
+		bottom = Node{K: "go", Name: fmt.Sprint(top*10 + 1)}
+	} else {
+		name = fmt.Sprintf("c%d", top)
+		if g.r.Pct(30) {
+			name = fmt.Sprintf("Chn%dX", top)
+		}
+		bottom = Node{K: "ret", Name: name}
+	}
+	kinds := []string{"let", "when", "cond", "seq", "uwp", "lock", "file", "ignore", "recover", "dolist", "dotimes", "lambda", "send", "block"}
+	cur := bottom
+	for d, n := 0, 1+g.r.Intn(4); d < n; d++ {
+		g.nextID++
+		w := Node{K: kinds[g.r.Intn(len(kinds))], ID: g.nextID}
+		switch w.K {
+		case "lock":
+			w.Mx = g.r.Intn(g.mutexes)
+			if g.held[w.Mx] {
+				w.K = "seq"
+			} else {
+				g.held[w.Mx] = true
+				defer func(mx int) { g.held[mx] = false }(w.Mx)
+			}
+		case "file":
+			g.files++
+		case "block":
+			w.Name = fmt.Sprintf("i%d", w.ID)
+		}
+		if g.r.Pct(40) {
+			w.Kids = append(w.Kids, Node{K: "val"})
+		}
+		w.Kids = append(w.Kids, cur)
+		cur = w
+	}
+	if useGo {
+		return Node{K: "tagbody", ID: top, Kids: []Node{cur, {K: "val"}, {K: "val"}}}
+	}
+	return Node{K: "block", ID: top, Name: name, Kids: []Node{cur}}
+}
+
 func (g *genCtx) kids(depth, max int) []Node {
 	n := 1 + g.r.Intn(max)
 	out := make([]Node, 0, n)
@@ -241,6 +293,9 @@ func (e *engine) Generate(seed uint64, idx int, tier string, avoid []harness.Fin
 	g := &genCtx{r: r, mutexes: c.Mutexes, held: map[int]bool{}}
 	depth := 2 + r.Intn(4)
 	c.Prog = Node{K: "seq", Kids: g.kids(depth, 3)}
+	if r.Pct(20) {
+		c.Prog.Kids[r.Intn(len(c.Prog.Kids))] = g.exitChain()
+	}
 	for i := range c.Prog.Kids {
 		// keep the program going after an error in one top-level part
 		if r.Pct(60) {
@@ -375,8 +430,14 @@ func (n *Node) render(dir string, b *strings.Builder) {
 		if n.Close {
 			tail = fmt.Sprintf(" (close f%d) (sim-emit \"closed\" %d)", n.ID, n.ID) // the implicit close then finds it closed
 		}
-		fmt.Fprintf(b, "(with-open-file (f%d %q :direction :output :if-exists :append :if-does-not-exist :create) (sim-emit \"opened\" %d) (format f%d \"line~%%\") (sim-emit \"wrote\" %d) %s (format f%d \"line~%%\") (sim-emit \"wrote\" %d)%s)",
-			n.ID, path, n.ID, n.ID, n.ID, all(), n.ID, n.ID, tail)
+		if n.Close {
+			// a second write and the explicit close follow the body
+			tail = fmt.Sprintf(" (format f%d \"line~%%\") (sim-emit \"wrote\" %d)%s", n.ID, n.ID, tail)
+		}
+		// without Close the body is the last thing in the form, so that an
+		// exit in its last position leaves through with-open-file
+		fmt.Fprintf(b, "(with-open-file (f%d %q :direction :output :if-exists :append :if-does-not-exist :create) (sim-emit \"opened\" %d) (format f%d \"line~%%\") (sim-emit \"wrote\" %d) %s%s)",
+			n.ID, path, n.ID, n.ID, n.ID, all(), tail)
 	}
 }
 
@@ -587,9 +648,6 @@ func (c *Case) judge(out runOut, f *Fault) *harness.Violation {
 	}
 	if len(out.s.Misuse) > 0 {
 		return viol("runtime-misuse", "%s: %v; trace: %s", what, out.s.Misuse, trace(out.marks))
-	}
-	if m, races := sched.UnknownRaces(out.s.MapRaces, nil); m != "" {
-		return viol("map-race:"+m, "%s: two routines access the shared Go map or slice %s with nothing ordering them (kind, site of the open write window, site of the other access): %v", what, m, races)
 	}
 	if out.mainRes.Cond == "host-fault" {
 		return viol("host-fault", "%s: %s", what, out.mainRes.Msg)
@@ -1033,8 +1091,9 @@ func (e *engine) Matches(raw json.RawMessage, v *harness.Violation, f harness.Fi
 // position, and the reported kinds carry the prefix "go:".
 var goMode bool
 
-func blocksAnyPosition(k string) bool {
-	return k == "tagbody" || k == "file" || (goMode && (k == "dolist" || k == "dotimes" || k == "send"))
+func blocksAnyPosition(n *Node) bool {
+	k := n.K
+	return k == "tagbody" || (k == "file" && n.Close) || (goMode && (k == "dolist" || k == "dotimes" || k == "send"))
 }
 
 func nonTailCrossings(n *Node, visible []string, crossing map[string][]string, out map[string]bool) {
@@ -1069,7 +1128,7 @@ func nonTailCrossings(n *Node, visible []string, crossing map[string][]string, o
 		last := i == len(n.Kids)-1
 		kind := n.K
 		// how the kids of this kind are rendered: inside which body form
-		nonTail := !last || blocksAnyPosition(n.K)
+		nonTail := !last || blocksAnyPosition(n)
 		if nonTail && (n.K != "block" || goMode) {
 			cr = map[string][]string{}
 			for k, v := range crossing {
@@ -1108,7 +1167,7 @@ func sanitize(n *Node, visible []string, unsafe map[string]bool, kinds map[strin
 			}
 		}
 		last := i == len(n.Kids)-1
-		nonTail := !last || blocksAnyPosition(n.K)
+		nonTail := !last || blocksAnyPosition(n)
 		if nonTail && (n.K != "block" || goMode) && kinds[n.K] {
 			us = map[string]bool{}
 			for k := range unsafe {
